@@ -125,15 +125,26 @@ def toks_match(spec, got):
 def glued_match(spec, text_toks):
     """`gcc -E` prints an identifier and a following pp-number that is not identifier-like (`tx` `1.`)
     without a separating space when they come from different macro expansions, so the re-tokenised text
-    can shift token boundaries.  Accept the reference if the characters agree and every reference
-    token boundary that differs is of that kind."""
+    shifts a token boundary (`tx1` `.`).  Accept the reference iff every place where the two token
+    sequences differ is exactly of that kind: the spec has [identifier, pp-number] where the text has
+    the same characters split differently."""
     if toks_match(spec, text_toks):
         return True
-    a = "".join(t.replace("\x01", "") for t in spec)
-    b = "".join(text_toks)
-    if "\x01" in "".join(spec):
-        return False
-    return a.replace(" ", "") == b.replace(" ", "") and pp_tokenize(" ".join(spec)) == list(spec)
+    i = j = 0
+    while i < len(spec) and j < len(text_toks):
+        if tok_match(spec[i], text_toks[j]):
+            i += 1; j += 1
+            continue
+        if i + 1 >= len(spec) or tok_kind(spec[i]) != "id" or tok_kind(spec[i + 1]) != "num":
+            return False
+        want = spec[i] + spec[i + 1]
+        acc, jj = "", j
+        while jj < len(text_toks) and len(acc) < len(want):
+            acc += text_toks[jj]; jj += 1
+        if acc != want:
+            return False
+        i += 2; j = jj
+    return i == len(spec) and j == len(text_toks)
 
 
 def proto_case(cid, lines):
@@ -182,8 +193,12 @@ def fix_ws(toks):
     """force white space between tokens that would otherwise lex differently"""
     out = []
     for sp, ws in toks:
-        if out and not ws and sp != "\n" and out[-1][0] != "\n" and not glue_ok(out[-1][0], sp):
-            ws = 1
+        if out and not ws and sp != "\n" and out[-1][0] != "\n":
+            if not glue_ok(out[-1][0], sp):
+                ws = 1
+            elif (len(out) >= 2 and not out[-1][1] and out[-2][0] != "\n"
+                  and pp_tokenize(out[-2][0] + out[-1][0] + sp) != [out[-2][0], out[-1][0], sp]):
+                ws = 1          # e.g. `.` `.` `.` would lex as `...`
         out.append((sp, ws))
     return out
 
